@@ -495,6 +495,7 @@ func TestVerifC07(t *testing.T) {
 			"level 2f injects a fault (generation cancelled, client cancelled, 5 s work budget expired) from inside the scripted upstream as it returns an answer the response rules reject or re-ask, then retries on the same controller and on the ReuseForReload successor: no client may be given records the reference walk does not end in; "+
 			"level 2t rewrites the upstreams to every documented scheme (udp, tcp, tcp+udp/udp+tcp, tls, https, quic, h3/http3) and scripts each transport attempt at an upstream (answered, refused, timed out, truncated) so that answers of two-transport upstreams arrive over the second attempt: the upstreams that answered, in order, and the reply must be the reference walk's, whatever transport delivered an answer; "+
 			"level 1f builds response programs whose ip() prefixes are all written in one family (IPv6 form incl. ::/0, ::ffff:0:0/96 and IPv4-mapped literals; IPv4 form) and probes them with A and AAAA answers at the first/last address of every prefix, its neighbours and their IPv4 / IPv4-mapped twins; "+
+			"level 1n/2n writes qname patterns (full, suffix with and without leading dot, keyword, regex) of boundary length - 1, 2, 63, 64..127, 252 and 253 characters, the longest legal name in several label splits - into request rules (upstream, asis, reject), response rules, negated and beside qtype conditions, and asks exactly the maximal names, their 252-character and same-length neighbours and their sub-names in lower/upper/mixed case with and without trailing dot, through RequestSelect/ResponseSelect and the controller flow; "+
 			"distinct = (level, shape of the deciding rule or fallback kind, answering-upstream kind), for level 2 (final verdict, number of upstream calls, request decision kind), for level 2f (fault kind, call struck, its response decision, final verdict), for level 2t (final verdict, calls, first/second transport, all upstreams answerable or not), for level 1f (written family of the prefixes, record type and family of the answer, deciding rule shape); "+
 			"non-trivial = decided at a non-first rule, by a negated or multi-condition rule, or at the fallback of a program with rules; level 2: every walk")
 	m.SetFloor(150)
@@ -526,8 +527,9 @@ func TestVerifC07(t *testing.T) {
 	// levels 2t and 1f draw from their own streams: the cases of the other levels do not move
 	rT := vk.NewRand(0xC0771)
 	rF := vk.NewRand(0xC0772)
+	rN := vk.NewRand(0xC0773)
 	ntrans := vk.Scale(6, 10)
-	var wall2t, wall1f time.Duration // informational only
+	var wall2t, wall1f, wall1n time.Duration // informational only
 
 	// the work budget of a resolution (5 s, dae's own constant) runs out while an upstream is
 	// answering: a few such cases run beside the main loop, each on its own controller and its own
@@ -742,6 +744,13 @@ func TestVerifC07(t *testing.T) {
 			wall1f += time.Since(t1f)
 		}
 
+		// ---------- level 1n / 2n: names of boundary length (1, 2, 63, 64.., 252, 253 characters) ----------
+		if i%3 == 1 {
+			t1n := time.Now()
+			verifC07NameLen(m, rN, i/3)
+			wall1n += time.Since(t1n)
+		}
+
 		if m.WantSample() && len(qs) > 0 {
 			ref, _ := vk.RefDnsRequest(p, qs[0])
 			m.Sample(map[string]any{"text": p.Text(), "qname": qs[0].Name, "qtype": qs[0].Qtype, "request_reference": ref})
@@ -751,6 +760,7 @@ func TestVerifC07(t *testing.T) {
 	m.Set("max_dns_lookup_depth", MaxDnsLookupDepth)
 	m.Set("info_wall_ms_level_2t", wall2t.Milliseconds())
 	m.Set("info_wall_ms_level_1f", wall1f.Milliseconds())
+	m.Set("info_wall_ms_level_1n", wall1n.Milliseconds())
 	m.Require("l1_request_decided_by_fallback", "l1_request_decided_by_nonfirst_rule", "l1_request_reject",
 		"l1_request_decided_after_internal_rule",
 		"l1_response_decided_by_fallback", "l1_response_decided_by_nonfirst_rule",
@@ -763,6 +773,7 @@ func TestVerifC07(t *testing.T) {
 		"l2f_judged_retry-on-retired-generation", "l2f_judged_successor-generation", "l2f_judged_retry-after-budget-expired", "l2f_judged_retry-after-client-cancelled")
 	m.Require(verifC07TRequired...)
 	m.Require(verifC07FRequired...)
+	m.Require(verifC07NRequired...)
 	m.Done(t)
 }
 
